@@ -269,10 +269,18 @@ func c04Arms(c *Ctx, r *Report, a *Anchors) {
 				key += fmt.Sprintf(" #%d", seen[arm+"|"+desc])
 			}
 			if coerced {
-				r.check("C04.ARMS", key, valPos(lf.val), true, "")
+				// ... by the coercer of the declared type, not of a type found by looking through its list wrappers
+				why := ""
+				if ex, ok := lf.val.(*ssa.Extract); ok {
+					if call, ok := ex.Tuple.(*ssa.Call); ok {
+						why = c.enumThroughLists(callRecv(call), 0)
+					}
+				}
+				r.check("C04.ARMS", key, valPos(lf.val), why == "", "the value is coerced by a type that was reached from the declared type by looking through list wrappers ("+why+"): for an argument declared [In] an object literal is coerced as In and reaches the resolver as a map, which was promised a list")
 				continue
 			}
 			noType := false
+			listStripped := ""
 			// an error is appended on this very path (the value is then discarded by the gate)
 			if lf.pred != nil {
 				for _, in := range lf.pred.Instrs {
@@ -286,8 +294,14 @@ func c04Arms(c *Ctx, r *Report, a *Anchors) {
 				ng := normGuard(g)
 				if ex, ok := ng.cond.(*ssa.Extract); ok && ex.Index == 1 && ng.val {
 					if lk, ok := ex.Tuple.(*ssa.Lookup); ok && lk.CommaOk {
-						if _, o, f, ok := loadOfField(lk.X); ok && o == "enumValueList" && f == "dict" {
-							noType = true
+						if base, o, f, ok := loadOfField(lk.X); ok && o == "enumValueList" && f == "dict" {
+							// ... of the declared type itself: an enum reached by looking through list
+							// wrappers is the element type of a list, and a symbol is not a list
+							if why := c.enumThroughLists(base, 0); why != "" {
+								listStripped = why
+							} else {
+								noType = true
+							}
 						}
 					}
 				}
@@ -312,6 +326,11 @@ func c04Arms(c *Ctx, r *Report, a *Anchors) {
 				if f, ok := assertFactOf(g); ok && !f.holds && stripIface(f.x) == ssa.Value(atP) && derefNamed(f.t) == "InCoercer" {
 					noType = true
 				}
+			}
+			if listStripped != "" && !noType {
+				r.check("C04.ARMS", key, firstPos(valPos(lf.val), rt.Pos()), false,
+					"the symbol is checked against an enum that was reached by looking through list wrappers ("+listStripped+"): for an argument declared [Color] the bare symbol RED passes the membership test and reaches the resolver, which was promised a list")
+				continue
 			}
 			r.check("C04.ARMS", key, firstPos(valPos(lf.val), rt.Pos()), noType,
 				"the value is handed on uncoerced although a declared type exists on this path: a literal of the wrong shape for the declared type (object for a scalar, list for a non-list, enum symbol for a non-enum) reaches the resolver unaltered and without an error")
@@ -600,6 +619,9 @@ func c04Input(c *Ctx, r *Report) {
 			case *ssa.Call:
 				if cal := t.Call.StaticCallee(); cal != nil && c.inPkg(cal) && len(t.Call.Args) > 0 {
 					val = t.Call.Args[len(t.Call.Args)-1]
+				} else if _, isB := t.Call.Value.(*ssa.Builtin); cal == nil && !isB && !t.Call.IsInvoke() && len(t.Call.Args) > 0 {
+					// a local function value (the store decided once before the loop: into the map or into the Go value)
+					val = t.Call.Args[len(t.Call.Args)-1]
 				}
 			}
 			if val == nil {
@@ -704,4 +726,51 @@ func c04Base(c *Ctx, r *Report, rule, method string) {
 		}
 	}
 	r.floor(rule, "integer parses in "+method+" bodies and helpers", n, 1)
+}
+
+// enumThroughLists: the value (an address or pointer leading to an Enum node) was obtained from the declared
+// type by a step that looks through list wrappers - a call of a package function that reads List.Base, or a
+// load of List.Base itself. "" when no such step is found.
+func (c *Ctx) enumThroughLists(v ssa.Value, depth int) string {
+	if depth > 12 || v == nil {
+		return ""
+	}
+	switch t := v.(type) {
+	case *ssa.FieldAddr:
+		return c.enumThroughLists(t.X, depth+1)
+	case *ssa.UnOp:
+		if _, o, f, ok := loadOfField(t); ok && o == "List" && f == "Base" {
+			return "a load of List.Base"
+		}
+		return c.enumThroughLists(t.X, depth+1)
+	case *ssa.Extract:
+		return c.enumThroughLists(t.Tuple, depth+1)
+	case *ssa.TypeAssert:
+		return c.enumThroughLists(t.X, depth+1)
+	case *ssa.ChangeInterface:
+		return c.enumThroughLists(t.X, depth+1)
+	case *ssa.MakeInterface:
+		return c.enumThroughLists(t.X, depth+1)
+	case *ssa.Phi:
+		for _, e := range t.Edges {
+			if w := c.enumThroughLists(e, depth+1); w != "" {
+				return w
+			}
+		}
+	case *ssa.Call:
+		cal := t.Call.StaticCallee()
+		if cal == nil || !c.inPkg(cal) {
+			return ""
+		}
+		for _, b := range cal.Blocks {
+			for _, in := range b.Instrs {
+				if u, ok := in.(*ssa.UnOp); ok {
+					if _, o, f, ok := loadOfField(u); ok && o == "List" && f == "Base" {
+						return "through " + cal.Name() + ", which reads List.Base"
+					}
+				}
+			}
+		}
+	}
+	return ""
 }
